@@ -197,7 +197,7 @@ func (g *genCtx) runC13(reqs []*genReq) {
 			continue
 		}
 		if len(v.problems) == 0 {
-			o.prop("C13", true, "")
+			o.propOK += v.runs - 1 // one byte comparison per further run
 			o.count("c13/deterministic")
 			o.nontrivial("c13/" + r.name)
 			continue
@@ -220,7 +220,7 @@ func (g *genCtx) runC13(reqs []*genReq) {
 	}
 	var jobs [][2]interface{}
 	for i, r := range reqs {
-		if vs[i].base == nil || vs[i].base.resp == nil || (r.class == "random" && i%10 != 0) {
+		if vs[i].base == nil || vs[i].base.resp == nil || vs[i].base.resp.Error != nil || r.expect == "nocrash" || (r.class == "random" && i%10 != 0) {
 			continue
 		}
 		for _, f := range featureStrings {
